@@ -7,6 +7,7 @@ of this property were written against (`Tea.Doc`). Written by checklib/mkbridges
 -/
 namespace Tea.Props.Bridge.C11
 
+theorem regexps : Tea.Gen.fact_regexps = Tea.Doc.fact_regexps := rfl
 theorem body_readAnsiInputs : Tea.Gen.fact_body_readAnsiInputs = Tea.Doc.fact_body_readAnsiInputs := rfl
 theorem body_detectOneMsg : Tea.Gen.fact_body_detectOneMsg = Tea.Doc.fact_body_detectOneMsg := rfl
 theorem body_detectSequence : Tea.Gen.fact_body_detectSequence = Tea.Doc.fact_body_detectSequence := rfl
